@@ -146,6 +146,45 @@ func checkBytes(x []byte) []kit.V {
 	if !same(a, b) {
 		add("roundtrip", fmt.Sprintf("Parse(%q) = {%s} but Parse(Format(.)) = {%s}", x, show(a), show(b)))
 	}
+	// The same input as the head of a larger buffer (a slice with spare
+	// capacity): same archive, the input untouched, nothing written behind it --
+	// neither by Parse nor by formatting its result.
+	buf := make([]byte, len(x)+8)
+	copy(buf, x)
+	for i := len(x); i < len(buf); i++ {
+		buf[i] = 0xA5
+	}
+	intact := func() bool {
+		for _, b := range buf[len(x):] {
+			if b != 0xA5 {
+				return false
+			}
+		}
+		return bytes.Equal(buf[:len(x)], x)
+	}
+	a3, pan := parseSafe(buf[:len(x)])
+	switch {
+	case pan != nil:
+		add("parse-panic-with-spare-capacity", fmt.Sprintf("txtar.Parse(%q) panics when the input is the head of a larger buffer: %v", x, pan))
+	case !intact():
+		add("parse-writes-to-its-input", fmt.Sprintf("txtar.Parse(%q) changed the caller's buffer: the input and the 8 bytes behind it are now %q", x, buf))
+	case !same(a, a3):
+		add("parse-depends-on-capacity", fmt.Sprintf("Parse(%q) = {%s} for a slice of exact capacity, {%s} for the same bytes at the head of a larger buffer", x, show(a), show(a3)))
+	default:
+		func() {
+			defer func() {
+				if e := recover(); e != nil {
+					add("format-panic", fmt.Sprintf("Format(Parse(%q)) panics: %v", x, e))
+				}
+			}()
+			fa3 := txtar.Format(a3)
+			if !intact() || !same(a, a3) {
+				add("format-writes-to-the-archive", fmt.Sprintf("Format of Parse(%q) changed the parsed input or the archive: buffer now %q, archive {%s}", x, buf, show(a3)))
+			} else if !bytes.Equal(fa3, fa) {
+				add("format-depends-on-capacity", fmt.Sprintf("Format(Parse(%q)) = %q for a slice of exact capacity, %q at the head of a larger buffer", x, fa, fa3))
+			}
+		}()
+	}
 	if bytes.IndexByte(x, '\r') < 0 {
 		ref := xtxtar.Parse(x)
 		if !same(a, ref) {
